@@ -1230,7 +1230,9 @@ impl CanonicalizeContext {
 					continue;
 				}
 				let attr_name = match child.attribute_value("encoding") {
-					Some(encoding_name) => format!("data-{}-{}", child_name, encoding_name.replace('/', "_slash_")),
+					// the encoding is a MIME type ("application/mathml+xml", "...; charset=utf-8"): keep only what can be part of an attribute name
+					Some(encoding_name) => format!("data-{}-{}", child_name, encoding_name.replace('/', "_slash_")
+										.replace(|ch: char| !(ch.is_ascii_alphanumeric() || ch == '-' || ch == '_' || ch == '.'), "_")),
 					None => format!("data-{}", child_name),		// probably shouldn't happen
 				};
 				let attr_name = attr_name.as_str();
